@@ -127,6 +127,44 @@ func TestVerifC11SM2(t *testing.T) {
 				}
 				r.Eval(fmt.Sprintf("%s:place=%d,msglen%%64=%d,idlen=%d", c.name, place, len(msg)%64, len(id)))
 			}
+			// (a'): all arguments ADJACENT in one guarded mapping, in rotated order, the first one at the very start of the
+			// mapping (or the last one at its very end): a look at the byte in front of an argument, or behind it, faults
+			for rot := 0; rot < len(c.args); rot++ {
+				n, total := len(c.args), 0
+				for _, a := range c.args {
+					total += len(a)
+				}
+				if total == 0 {
+					continue
+				}
+				place := []int{hk.PlaceStart, hk.PlaceEnd}[(rot+iter)%2]
+				g := pool.Get(total, place)
+				v := make([][]byte, n)
+				off := 0
+				for i := 0; i < n; i++ {
+					k := (i + rot) % n
+					copy(g.B[off:], c.args[k])
+					v[k] = g.B[off : off+len(c.args[k]) : off+len(c.args[k])]
+					off += len(c.args[k])
+				}
+				var ok bool
+				var got string
+				p, pm, isFault, addr := hk.Try(func() { ok, got = c.run(v) })
+				det := hk.D{"entry": c.name, "placement": "all arguments adjacent in one mapping, " + []string{"first at its start", "last at its end"}[(rot+iter)%2], "first_argument_index": rot, "arg_lengths": lens(c.args), "got": got}
+				switch {
+				case p && isFault:
+					det["fault_address"] = fmt.Sprintf("%#x", addr)
+					det["panic"] = pm
+					r.Violation("access-outside-argument:"+c.name, det)
+				case p:
+					det["panic"] = pm
+					r.Violation("panic-on-valid-arguments:"+c.name, det)
+				case !ok:
+					r.Violation("wrong-answer-on-guarded-arguments:"+c.name, det)
+				}
+				pool.Put(g)
+				r.Eval(fmt.Sprintf("%s:adjacent-in-one-mapping,first=%d,place=%d", c.name, rot, place))
+			}
 			// (c): one record, rotated field order, adjacent (gap 0) or separated by canaries
 			for rot := 0; rot < len(c.args); rot++ {
 				n := len(c.args)
